@@ -72,6 +72,16 @@ class H:
 
 @symbol
 @dataclass(eq=False)
+class HUnset:
+    """a head class whose fields have a default that is NOT None: an argument None is the value None, not 'leave the field open'"""
+    h0: Any = 'unset'
+    h1: Any = 'unset'
+    h2: Any = 'unset'
+    h3: Any = 'unset'
+
+
+@symbol
+@dataclass(eq=False)
 class HFalsy(H):
     """a head class whose instances are FALSY (a container-like class with __len__): an inferred instance is an instance"""
     def __len__(self):
@@ -427,7 +437,7 @@ class Builder:
             from entity_query_language.entity import infer
             style = case.get('head_style', 'kw')
             if style == 'kw':
-                head = (HFalsy if case.get('falsy_head') else H)(**{f'h{i}': s_ for i, s_ in enumerate(sel)})
+                head = (HFalsy if case.get('falsy_head') else HUnset if case.get('unset_head') else H)(**{f'h{i}': s_ for i, s_ in enumerate(sel)})
             elif style == 'pos':
                 head = HK(*sel)                              # positional arguments, keyword-only parameters in between
             else:
@@ -452,7 +462,7 @@ def rows_of(q, sel, form, objs, quant=None):
     out = []
     if form == 'infer':
         made = list(q.evaluate())
-        if any(type(o) not in (H, HK, HFalsy) for o in made) or len({id(o) for o in made}) != len(made):
+        if any(type(o) not in (H, HK, HFalsy, HUnset) for o in made) or len({id(o) for o in made}) != len(made):
             return 'X not-new-instances'
         if any(type(o) is HK and (o.origin != 'base' or o.weight not in (3, 7)) for o in made):
             return 'X not-new-instances'
